@@ -9,11 +9,14 @@ The sentences of the property and where they are formalised:
 * "after each run every file named by a yielded value exists at output_directory/dirname/filename.fileext with
   exactly the content produced from the current data, and every derived artefact has been regenerated if anything
   it was rendered from was rewritten or if it was missing" — `run_fresh_partial`, `history_fresh_partial`
-  (separate plots), `grpCore_fresh`, `group_fresh_partial` (a group), `write_path_rule`, `write_file_at_path`;
+  (separate plots), `grpCore_fresh`, `group_fresh_partial`, `group_history_fresh_partial` (a group),
+  `write_path_rule`, `write_file_at_path`;
   proved under the hypothesis `SourceClosed` (every existing pdf has its `.tex` and CSV files on disk when the
   run starts).  The statements without that hypothesis are kept as `run_fresh_full`, `history_fresh_full` and
   are **false** for the code as it is: `run_fresh_full_fails`, `history_fresh_full_fails` (the known finding;
-  `writeCore_created_leaves_changed` is its mechanism).
+  `writeCore_created_leaves_changed` is its mechanism).  Its exact extent for one plot: `stale_when_csv_missing`,
+  `stale_when_tex_missing` (the pdf is left as it was, for all data and all worlds), `fresh_when_all_sources_missing`
+  (both sources missing: regenerated through the modification-time rule).
 * "context.output.changed is true whenever a file's content changed and stays true downstream" —
   `writeCore_changed_content`, `writeCore_sticky`, `changed_sticky`, `changed_sticky_plot`,
   `group_changed_sticky`, `group_changed_after_mapgroup`, `groupPlotsChanged_iff`, `combineChanged_spec`.
